@@ -259,3 +259,9 @@ mod tests {
         );
     }
 }
+
+/// Verification hook (add-only): exposes the private `to_segment_map` to /verif's harness.
+#[cfg(fontc_verif)]
+pub fn verif_to_segment_map(axis: &Axis) -> SegmentMaps {
+    to_segment_map(axis)
+}
